@@ -809,6 +809,20 @@ Proof.
     destruct (exec_s fuel s0 (LS ++ [l]) s) as [s2 rs]. simpl in *. subst s2.
     assert (HL : pop L1 = G ++ LS \/ pop L1 = []).
     { destruct H3 as [->| ->]; [left; rewrite app_assoc; apply pop_snoc|right; reflexivity]. }
+    (* the consume step of the labelled statement never fires for a well-formed body: a break to l that the
+       spec side still carries has been taken by the body on the otto side already *)
+    assert (Hro : match ro with
+                  | ONorm (OBrk t') => if Nat.eqb t' l then (s1, pop L1, ONorm OEmpty) else (s1, pop L1, ONorm (OBrk t'))
+                  | r => (s1, pop L1, r)
+                  end = (s1, pop L1, ro)).
+    { destruct ro as [[| |t'| |]| |]; try reflexivity.
+      destruct (Nat.eqb t' l) eqn:E; [|reflexivity]. apply Nat.eqb_eq in E. subst t'.
+      exfalso. destruct rs as [c|]; simpl in H2; [|contradiction].
+      destruct c as [|t''|t''|v'|v']; simpl in H2; try contradiction.
+      destruct (mem t'' (LS ++ [l])) eqn:Em; simpl in H2; [contradiction|].
+      subst t''. rewrite mem_app in Em. simpl in Em. rewrite Nat.eqb_refl in Em.
+      rewrite orb_true_r in Em. discriminate Em. }
+    rewrite Hro. clear Hro.
     destruct rs as [c|].
     + pose proof (conv_snoc LS l c) as Ec. unfold label in *.
       destruct c as [|t'|t'|v'|v']; simpl in Ec |- *.
@@ -889,6 +903,17 @@ Proof.
   simpl in H. destruct (exec_o fuel s0 [] s) as [[s1 L1] ro]. destruct (exec_s fuel s0 [] s) as [s2 rs].
   destruct H as [H1 [H2 H3]]. simpl in *. repeat split; try assumption. destruct H3; assumption.
 Qed.
+(* 12.12 on the otto side, for every body (no guard): a labelled statement never hands a break to its own
+   label on to its context - what used to leak out of  l: if (c) break l  and its relatives *)
+Lemma labelled_takes_own_break fuel s0 L l (s : stmt) :
+  match snd (exec_o fuel s0 L (SLabelled l s)) with ONorm (OBrk t) => t <> l | _ => True end.
+Proof.
+  destruct fuel as [|fuel]; cbn [Sem.exec_o]; [exact I|].
+  destruct (poll s0) as [s0' [x|]]; [exact I|].
+  destruct (exec_o fuel s0' (L ++ [l]) s) as [[s1 L1] [[| |t| |]| |]]; cbn; try exact I.
+  destruct (Nat.eqb t l) eqn:E; cbn; [exact I|]. now apply Nat.eqb_neq.
+Qed.
+
 End Sim.
 
 Check control_flow_refines.
